@@ -24,7 +24,9 @@ ATTRS = [('', (0, 0, 0)), ('[a]', (0, 1, 0)), ('[a=b]', (0, 1, 0)), ('[a~="b"]',
 PSEUDOCLASS = [('', (0, 0, 0)), (':hover', (0, 0, 0)), (':nth-child(2n+1)', (0, 0, 0)), (':lang(en)', (0, 0, 0)),
                (':nth-last-child(-n+3)', (0, 0, 0)), (':first-child', (0, 0, 0))]
 NOT = [('', (0, 0, 0)), (':not(e)', (0, 0, 1)), (':not(#i)', (1, 0, 0)), (':not(.c)', (0, 1, 0)),
-       (':not([a])', (0, 1, 0)), (':not(:hover)', (0, 0, 0)), (':not(*)', (0, 0, 0))]
+       (':not([a])', (0, 1, 0)), (':not(:hover)', (0, 0, 0)), (':not(*)', (0, 0, 0)),
+       # cssutils accepts a pseudo-element as argument; what it accepts it has to count ('of its argument')
+       (':not(::first-letter)', (0, 0, 1)), (':not(:first-line)', (0, 0, 1)), (':not(*|e)', (0, 0, 1)), (':not([a=b])', (0, 1, 0))]
 PSEUDOEL = [('', (0, 0, 0)), ('::after', (0, 0, 1)), (':before', (0, 0, 1)), (':first-line', (0, 0, 1)),
             ('::first-letter', (0, 0, 1))]
 COMBINATORS = [' ', '>', '+', '~']
